@@ -75,6 +75,13 @@ impl<T: PartialEq> VecSet<T> {
     pub fn len(&self) -> usize { self.items.len() }
     pub fn is_empty(&self) -> bool { self.items.is_empty() }
     pub fn iter(&self) -> std::slice::Iter<'_, T> { self.items.iter() }
+    /// BTreeSet::first: the least element
+    pub fn first(&self) -> Option<&T> where T: Ord {
+        if self.items.is_empty() { return None; }
+        let mut j = 0; let mut i = 1;
+        while i < self.items.len() { if self.items[i] < self.items[j] { j = i; } i += 1; }
+        Some(&self.items[j])
+    }
 }
 impl<T: PartialEq> FromIterator<T> for VecSet<T> {
     fn from_iter<I: IntoIterator<Item = T>>(it: I) -> Self { let mut s = VecSet::new(); for x in it { s.insert(x); } s }
